@@ -4,6 +4,7 @@ import (
 	"bytes"
 	"context"
 	"crypto/sha256"
+	"errors"
 	"fmt"
 	"io"
 	"log/slog"
@@ -92,6 +93,10 @@ func (b *ETagBackend) Fetch(ctx context.Context, logID [sha256.Size]byte) (Locke
 		options.APIOptions = append(options.APIOptions, awshttp.AddHeaderValue("x-tigris-cas", "true"))
 	})
 	if err != nil {
+		var re *awshttp.ResponseError
+		if errors.As(err, &re) && re.HTTPStatusCode() == http.StatusNotFound {
+			return nil, ErrLogNotFound
+		}
 		return nil, fmt.Errorf("failed to fetch %q from ETag backend: %w", key, err)
 	}
 	defer out.Body.Close()
